@@ -9,12 +9,18 @@ property's correspondence streams and reports `no-failing-input-found` when the 
 then re-read against the new text and the recording refreshed).
 -/
 import PcGen.SrcMirrorApiObl
+import PcGen.SrcMirrorParamsObl
 
 namespace Pc.C01Src
 
 /-- every function of group `Api` mirrored by a model has, in /repo now, the text the model was written against -/
 theorem models_mirror_source_Api : Pc.SrcMirror.Api.AllText := Pc.SrcMirror.Api.all_text
 
+/-- `pi_gourdon_64/128`, `pi_deleglise_rivat_64/128`, the tuning getters and `get_x_star_gourdon` (group `Params`): the top-level
+    compositions proved in C01Top / C01Closed mirror these texts -/
+theorem models_mirror_source_Params : Pc.SrcMirror.Params.AllText := Pc.SrcMirror.Params.all_text
+
 end Pc.C01Src
 
 #print axioms Pc.C01Src.models_mirror_source_Api
+#print axioms Pc.C01Src.models_mirror_source_Params
